@@ -485,6 +485,10 @@ fn do_remapping_loop_one_device(driver: &mut impl Driver, layout: Layout, verbos
   let mut in_tablet_mode: bool = false;
   let mut restart_count: i32 = 0;
   
+  // Keys currently held on the virtual keyboard, so that a repeat chord does not
+  // press (and then release) a key that is already down.
+  let mut held_output_keys: Vec<KeyCode> = Vec::new();
+  
   if verbose { eprintln!("Starting remapping loop."); }
   
   loop {
@@ -512,10 +516,14 @@ fn do_remapping_loop_one_device(driver: &mut impl Driver, layout: Layout, verbos
               if !in_tablet_mode {
                 let mut repeat_send = Vec::new();
                 for key in &keys {
-                  repeat_send.push(Pressed(*key));
+                  if !held_output_keys.contains(key) {
+                    repeat_send.push(Pressed(*key));
+                  }
                 }
                 for key in (&keys).iter().rev() {
-                  repeat_send.push(Released(*key));
+                  if !held_output_keys.contains(key) {
+                    repeat_send.push(Released(*key));
+                  }
                 }
                 driver.send(&repeat_send)?;
                 working_repeat = WorkingRepeat::Repeating {
@@ -559,6 +567,7 @@ fn do_remapping_loop_one_device(driver: &mut impl Driver, layout: Layout, verbos
                         
                         if !evs_out.is_empty() {
                           driver.send(&evs_out)?;
+                          track_held_output_keys(&mut held_output_keys, &evs_out);
                         }
                         
                         working_repeat = match step_out.repeat {
@@ -592,6 +601,7 @@ fn do_remapping_loop_one_device(driver: &mut impl Driver, layout: Layout, verbos
                           let release_events = mapper.release_all();
                           if !release_events.is_empty() {
                             driver.send(&release_events)?;
+                            track_held_output_keys(&mut held_output_keys, &release_events);
                           }
                         },
                         Off => {
@@ -600,6 +610,7 @@ fn do_remapping_loop_one_device(driver: &mut impl Driver, layout: Layout, verbos
                           let release_events = mapper.release_all();
                           if !release_events.is_empty() {
                             driver.send(&release_events)?;
+                            track_held_output_keys(&mut held_output_keys, &release_events);
                           }
                         }
                       }
@@ -610,6 +621,21 @@ fn do_remapping_loop_one_device(driver: &mut impl Driver, layout: Layout, verbos
             }
           }
         }
+      }
+    }
+  }
+}
+
+fn track_held_output_keys(held: &mut Vec<KeyCode>, evs: &Vec<Event>) {
+  for ev in evs {
+    match ev {
+      Pressed(k) => {
+        if !held.contains(k) {
+          held.push(*k);
+        }
+      },
+      Released(k) => {
+        held.retain(|k2| k2 != k);
       }
     }
   }
